@@ -63,11 +63,11 @@ func refHostMatch(host string, allowed []string) bool {
 
 // refRouteCriteria reports whether every criterion except the method holds,
 // and whether the method holds.
-func refRouteCriteria(r *RouteSpec, req *http.Request, cleaned string) (rest bool, method bool) {
+func refRouteCriteria(spec *SysSpec, r *RouteSpec, req *http.Request, cleaned string) (rest bool, method bool) {
 	if !refPathMatch(cleaned, r.Path) {
 		return false, false
 	}
-	m := r.Match
+	m := spec.matchOf(r)
 	if m == nil {
 		m = &MatchSpec{}
 	}
@@ -147,14 +147,14 @@ func refResolve(spec *SysSpec, req *http.Request) (idx int, status int, allow []
 		if r.Channel != "" && r.Channel != "inbound" {
 			continue // outbound and internal routes are never reachable from ingress
 		}
-		rest, method := refRouteCriteria(r, req, cleaned)
+		rest, method := refRouteCriteria(spec, r, req, cleaned)
 		if rest && method {
 			return i, 0, nil
 		}
 		if rest {
 			ms := []string{http.MethodPost}
-			if r.Match != nil && len(r.Match.Methods) > 0 {
-				ms = r.Match.Methods
+			if m := spec.matchOf(r); m != nil && len(m.Methods) > 0 {
+				ms = m.Methods
 			}
 			for _, x := range ms {
 				if !seen[x] {
